@@ -277,10 +277,7 @@ def toDateTime (v : V) : Option ParseRes :=
   | _ => none
 
 /-- `arg_type = "str"` parameter -/
-def strArg (v : V) : Option Str :=
-  match v with
-  | .sc s => some s.render
-  | _ => none
+def strArg (v : V) : Option Str := some v.render   -- a `str` parameter is `to_kstr()` of any value
 
 /-- `date: fmt` (stdlib) -/
 def dateFilter (fixed : Bool) (input : V) (args : List V) : Res V :=
